@@ -763,11 +763,18 @@ func (c *Client) readResponseTagged(tag, typ string) (startTLS *startTLSCommand,
 		startTLS = cmd
 	}
 
-	if cmdErr == nil && code != "CAPABILITY" {
+	if cmdErr == nil {
 		switch cmd.(type) {
-		case *startTLSCommand, *loginCommand, *authenticateCommand, *unauthenticateCommand:
-			// These commands invalidate the capabilities
+		case *startTLSCommand:
+			// Capabilities received before the TLS handshake aren't protected,
+			// including a CAPABILITY response code in the STARTTLS completion
+			// itself: always discard them, see RFC 9051 section 6.2.1
 			c.setCaps(nil)
+		case *loginCommand, *authenticateCommand, *unauthenticateCommand:
+			// These commands invalidate the capabilities
+			if code != "CAPABILITY" {
+				c.setCaps(nil)
+			}
 		}
 	}
 
